@@ -109,8 +109,103 @@ def reviewed : List ((String × String × String × String) × Discipline) := [
   (("wick.c", "wickfill", "parallel for schedule(static)", "ijkl from 0 while ijkl < norb * norb * norb * norb"), Discipline.rowPartition)
 ]
 
+/-- the reviewed shared-write table (same order as `reviewed`): for each construct the shared arrays written
+    directly, the shared scalars written directly (none), and the functions called inside the governed statement -/
+def reviewedBodies : List (String × String × List String × List String × List String) := [
+  ("cirq_utils.c", "detect_cirq_sectors", ["paramarray"], [], ["cabs"]),
+  ("fci_graph.c", "calculate_Z_matrix", ["out"], [], []),
+  ("fci_graph.c", "map_deexc", ["index"], [], []),
+  ("fci_graph.c", "build_mapping_strings", ["mapl"], [], ["CHECK_BIT", "SET_BIT", "UNSET_BIT", "count_bits_between", "fprintf", "string_to_index"]),
+  ("fci_graph.c", "calculate_string_address", ["out"], [], ["string_to_index"]),
+  ("fci_graph.c", "map_to_deexc_alpha_icol", [], [], ["assert"]),
+  ("fci_graph.c", "make_mapping_each_set", ["down", "up"], [], ["UNSET_BIT", "assert", "count_bits", "count_bits_above", "count_bits_between", "get_occupation"]),
+  ("fqe_data.c", "lm_apply_array12_same_spin", [], [], ["blasfunc->zaxpy"]),
+  ("fqe_data.c", "lm_apply_array12_diff_spin", ["prefactors", "targetbs"], [], []),
+  ("fqe_data.c", "lm_apply_array12_diff_spin", [], [], []),
+  ("fqe_data.c", "lm_apply_array1_old", [], [], ["blasfunc->zaxpy"]),
+  ("fqe_data.c", "lm_apply_array1_sparse", ["ctemp"], [], ["blasfunc->zaxpy"]),
+  ("fqe_data.c", "lm_apply_array1_sparse", ["ctemp"], [], []),
+  ("fqe_data.c", "lm_apply_array1_sparse", [], [], ["blasfunc->zaxpy"]),
+  ("fqe_data.c", "lm_apply_array1_sparse", [], [], []),
+  ("fqe_data.c", "lm_apply_array1", [], [], ["blasfunc->zaxpy"]),
+  ("fqe_data.c", "lm_apply_array1_column_alpha", [], [], ["MIN", "blasfunc->zaxpy"]),
+  ("fqe_data.c", "lm_apply_array1_column_alpha", [], [], ["MIN", "blasfunc->zscal"]),
+  ("fqe_data.c", "zdvec_make", [], [], ["zdvec_make_part"]),
+  ("fqe_data.c", "zdiagonal_coulomb_part", ["output"], [], []),
+  ("fqe_data.c", "zdiagonal_coulomb_apply", [], [], ["get_occupation"]),
+  ("fqe_data.c", "zdiagonal_coulomb_apply", [], [], ["get_occupation"]),
+  ("fqe_data.c", "zdiagonal_coulomb_apply", [], [], ["assert"]),
+  ("fqe_data.c", "zdiagonal_coulomb_apply", ["aarrays"], [], []),
+  ("fqe_data.c", "zdiagonal_coulomb", [], [], ["get_occupation"]),
+  ("fqe_data.c", "zdiagonal_coulomb", [], [], ["get_occupation"]),
+  ("fqe_data.c", "zdiagonal_coulomb", ["diagexp"], [], ["cexp"]),
+  ("fqe_data.c", "zdiagonal_coulomb", ["arrayexp"], [], ["cexp"]),
+  ("fqe_data.c", "zdiagonal_coulomb", [], [], ["assert"]),
+  ("fqe_data.c", "zdiagonal_coulomb", ["aarrays"], [], []),
+  ("fqe_data.c", "make_dvec_part", [], [], ["blasfunc->zaxpy"]),
+  ("fqe_data.c", "lm_apply_array12_same_spin_opt", [], [], ["blasfunc->zaxpy", "free", "safe_malloc"]),
+  ("fqe_data.c", "lm_apply_array12_same_spin_opt", ["temp"], [], ["blasfunc->zaxpy"]),
+  ("fqe_data.c", "lm_apply_array12_diff_spin_omp1", ["ctemp"], [], ["blasfunc->zaxpy", "omp_get_thread_num"]),
+  ("fqe_data.c", "lm_apply_array12_diff_spin_omp1", ["ctemp"], [], []),
+  ("fqe_data.c", "lm_apply_array12_diff_spin_omp1", [], [], ["blasfunc->zaxpy"]),
+  ("fqe_data.c", "lm_apply_array12_diff_spin_omp1", [], [], ["blasfunc->zaxpy", "omp_get_thread_num"]),
+  ("fqe_data.c", "apply_array12_lowfillingab", [], [], []),
+  ("fqe_data.c", "apply_array12_lowfillingaa", [], [], []),
+  ("fqe_data.c", "apply_individual_nbody1_accumulate", [], [], []),
+  ("fqe_data.c", "_from_to_cirq", [], [], []),
+  ("fqe_data.c", "sparse_scale", ["data"], [], []),
+  ("fqe_data.c", "apply_diagonal_inplace", [], [], ["integer_index_accumulate"]),
+  ("fqe_data.c", "apply_diagonal_inplace", [], [], ["integer_index_accumulate"]),
+  ("fqe_data.c", "apply_diagonal_inplace", ["data"], [], []),
+  ("fqe_data.c", "apply_diagonal_inplace_real", [], [], ["integer_index_accumulate_real"]),
+  ("fqe_data.c", "apply_diagonal_inplace_real", [], [], ["integer_index_accumulate_real"]),
+  ("fqe_data.c", "apply_diagonal_inplace_real", ["data"], [], []),
+  ("fqe_data.c", "evolve_diagonal_inplace", ["alpha"], [], ["cexp", "integer_index_accumulate"]),
+  ("fqe_data.c", "evolve_diagonal_inplace", ["beta"], [], ["cexp", "integer_index_accumulate"]),
+  ("fqe_data.c", "evolve_diagonal_inplace", ["data"], [], []),
+  ("fqe_data.c", "evolve_diagonal_inplace_real", ["alpha"], [], ["exp", "integer_index_accumulate_real"]),
+  ("fqe_data.c", "evolve_diagonal_inplace_real", ["beta"], [], ["exp", "integer_index_accumulate_real"]),
+  ("fqe_data.c", "evolve_diagonal_inplace_real", ["data"], [], []),
+  ("fqe_data.c", "calculate_dvec1", [], [], []),
+  ("fqe_data.c", "calculate_dvec2", [], [], []),
+  ("fqe_data.c", "calculate_dvec1_j", [], [], []),
+  ("fqe_data.c", "calculate_dvec2_j", [], [], []),
+  ("fqe_data.c", "make_nh123_real", [], [], []),
+  ("fqe_data.c", "make_nh123", [], [], []),
+  ("mylapack.c", "zimatadd", ["out"], [], []),
+  ("mylapack.c", "zimatadd", ["out"], [], []),
+  ("mylapack.c", "transpose", ["out"], [], []),
+  ("mylapack.c", "transpose", ["out"], [], []),
+  ("wick.c", "wickfill", ["target"], [], []),
+  ("wick.c", "wickfill", ["target"], [], []),
+  ("wick.c", "wickfill", ["target"], [], []),
+  ("wick.c", "wickfill", ["target"], [], []),
+  ("wick.c", "wickfill", ["target"], [], []),
+  ("wick.c", "wickfill", ["target"], [], []),
+  ("wick.c", "wickfill", ["target"], [], []),
+  ("wick.c", "wickfill", ["target"], [], []),
+  ("wick.c", "wickfill", ["target"], [], []),
+  ("wick.c", "wickfill", ["target"], [], []),
+  ("wick.c", "wickfill", ["target"], [], []),
+  ("wick.c", "wickfill", ["target"], [], []),
+  ("wick.c", "wickfill", ["target"], [], []),
+  ("wick.c", "wickfill", ["target"], [], [])
+]
+
 /-- every OpenMP construct present in the current sources is a reviewed one, and vice versa -/
 theorem C10_inventory : GenOmp.inventory = reviewed.map (·.1) := by decide
+
+/-- the loop bodies still write the reviewed shared objects and call the reviewed functions (a buffer hoisted out of
+    a loop, a new shared accumulator, a new call inside a parallel loop changes the regenerated table) -/
+theorem C10_bodies : GenOmp.bodies = reviewedBodies := by decide
+
+/-- no parallel construct writes a scalar that is shared between its iterations / threads
+    (every directly written shared object is an indexed array or a dereferenced pointer) -/
+theorem C10_no_shared_scalar_write : ∀ b ∈ GenOmp.bodies, b.2.2.2.1 = [] := by decide
+
+/-- one table row per construct -/
+theorem C10_bodies_aligned : GenOmp.bodies.map (fun b => (b.1, b.2.1)) = GenOmp.inventory.map (fun e => (e.1, e.2.1)) := by
+  decide
 
 /-- row partition: distinct iterations write disjoint index ranges -/
 theorem C10_row_partition (stride i j a b : Nat) (ha : a < stride) (hb : b < stride) (hij : i ≠ j) :
